@@ -15,6 +15,7 @@ open Wire Enum
                                                → `l=v,l=v@energy|…` sorted (exact child)
     pscale <spin> <s> ; ignored ; poly         → same, via polyScaleSample with an exact child
     pfixed <spin> <skipConst> ; poly ; fixed   → same, via polyFixedSample with an exact child
+    expand ; reds+ ; init                      → `l=v,…` sorted (`expand_initial_state`); reds+ = `u&v&p[&aux&cu&cv&cp],…`
     poly   = `bias@l&l&l|…`   fixed/lin = `l=v,…`   quad = `u&v=b,…`   reds = `u&v&p,…` -/
 
 def sepBy (c : String) (s : String) : List String := if s = "" ∨ s = "-" then [] else s.splitOn c
@@ -133,6 +134,18 @@ def answer (line : String) : String :=
     match parseRat? s, (sepBy "|" (field parts 1)).mapM (fun t => parseLabels t "&"), parsePoly (field parts 2) with
     | some s, some ign, some p => showRows (polyScaleSample (exactPoly (spin = "1")) p s ign)
     | _, _, _ => "bad"
+  | ["expand"] =>
+    -- reds = `u&v&p` or `u&v&p&aux&cu&cv&cp`, joined by `,`
+    match (sepBy "," (field parts 1)).mapM (fun t => match t.splitOn "&" with
+            | [u, v, q] => do let u ← parseLabel? u; let v ← parseLabel? v; let q ← parseLabel? q; pure (RedX.mk u v q none)
+            | [u, v, q, a, cu, cv, cp] => do
+                let u ← parseLabel? u; let v ← parseLabel? v; let q ← parseLabel? q; let a ← parseLabel? a
+                let cu ← parseRat? cu; let cv ← parseRat? cv; let cp ← parseRat? cp
+                pure (RedX.mk u v q (some (a, cu, cv, cp)))
+            | _ => none), parseAssign (field parts 2) with
+    | some reds, some init =>
+      String.intercalate "," (sortStr ((expandInitialState reds init).map fun (l, v) => showLabel l ++ "=" ++ showRat v))
+    | _, _ => "bad"
   | ["pfixed", spin, sk] =>
     match parsePoly (field parts 1), parseAssign (field parts 2) with
     | some p, some fx => showRows (polyFixedSample (sk = "1") (exactPoly (spin = "1")) p fx)
